@@ -89,6 +89,10 @@ def run(tier, seed):
     # ---- named digests and unknown names
     fixed = [a for a in algs if a != "CRC-64-AVRO" and not a.startswith("shake_")]
     sample = texts[:40] + rnd.sample(texts, min(60, len(texts)))
+    # call order matters for state kept between calls: not the empty text first, every algorithm used many times
+    rnd.shuffle(sample)
+    sample.sort(key=lambda t: t == "")
+    sample = sample + sample[:10]
     names = fixed + ["MD5", "SHA-256"]
     unknown = ["", "crc-64-avro", "CRC64", "SHA256", "Md5", "sha-256", "SHA3-256", "sha512_256", "sm3", "md5-sha1",
                "ripemd160", "whirlpool", "sha257", "UNKNOWN", "md4", "blake2b512", "SHA-1", "MD5 ", " md5", "sha384\x00",
